@@ -251,6 +251,7 @@ func (fr *frame) execInstr(in ssa.Instruction, st *State, reach string, b *ssa.B
 			u.oblige(fr.obName("panic", fr.describe(x.X, 0)), "panic", nil, reach, "false", fr.pos(x.Pos()), "")
 		}
 	case *ssa.Return:
+		fr.returnSiteAsserts(x, st, reach)
 		var vals []*Val
 		for _, r := range x.Results {
 			vals = append(vals, fr.valOf(r))
